@@ -8,6 +8,7 @@ Mismatches are MODEL-DRIFT (informational, never a VIOLATION).
 
 The TLC runs are independent and dominated by JVM start-up, so they run side by side in child processes: the design check
 with two workers, everything else with one; never more than four TLC workers at a time."""
+import json
 import os
 from concurrent.futures import ProcessPoolExecutor
 
@@ -85,7 +86,7 @@ def _conformance(wd, big):
             named = set(p for b in o["bursts"] for p in b["peers"]) | set(p for b in o["behav"] for p in b["ps"]) | set(a["p"] for a in o["asym"])
             if named - known:
                 wit["departed_peer_named_by_detector"] += 1
-            if any(len(g["ev"]) != len(set(vlib.json.dumps(x, sort_keys=True) for x in g["ev"])) for g in o["groups"]):
+            if any(len(g["ev"]) != len(set(json.dumps(x, sort_keys=True) for x in g["ev"])) for g in o["groups"]):
                 wit["group_holds_same_evidence_twice"] += 1
             members = [p for g in o["groups"] for p in g["m"]]
             if len(members) != len(set(members)):
